@@ -391,6 +391,11 @@ fn timeout_expiry(ctx: &Ctx) {
     scenarios.push(("dfs".into(), 3, 30, 0, true));
     scenarios.push(("on_demand".into(), 1, 30, 0, true));
     scenarios.push(("on_demand".into(), 2, 30, 0, true));
+    // sub-second and non-integral timeouts
+    scenarios.push(("bfs".into(), 2, 31, 0, false));
+    scenarios.push(("simulation".into(), 2, 31, 0, true));
+    scenarios.push(("dfs".into(), 2, 29, 0, false));
+    scenarios.push(("simulation".into(), 1, 29, 0, false));
     // one endless simulation trace
     scenarios.push(("simulation".into(), 1, 30, 0, true));
     scenarios.push(("simulation".into(), 3, 30, 0, true));
@@ -403,7 +408,13 @@ fn timeout_expiry(ctx: &Ctx) {
     let scenarios = &scenarios;
     ctx.cases("timeout_expiry", scenarios.len() as u64, 8, |case| {
         let (strategy, threads, spin_us, depth, chain) = scenarios[case.k as usize].clone();
-        let timeout_ms = 1000u64;
+        // most scenarios use a 1 s timeout; a few a sub-second or a 1.7 s one (marked by the
+        // spin value 31 / 29 so that the scenario table keeps its shape)
+        let timeout_ms = match spin_us {
+            31 => 300u64,
+            29 => 1700,
+            _ => 1000,
+        };
         let sname = strategy.trim_end_matches("_depth");
         let args: Vec<String> = vec![
             "timeout".into(), sname.into(), threads.to_string(), timeout_ms.to_string(),
